@@ -110,6 +110,16 @@ func parseBool(b byte) (bool, error) {
 	return b != 0, nil
 }
 
+// memberMatches reports whether an element with the given identifier can be
+// the SEQUENCE/SET member declared with params: a member with a context tag is
+// recognised by its tag number, a member without one keeps its universal tag.
+func memberMatches(params fieldParameters, tal tagAndLen) bool {
+	if params.tagNumber == nil {
+		return tal.class == ClassUniversal
+	}
+	return *params.tagNumber == tal.tagNumber
+}
+
 // ParseField is the main parsing function. Given a byte slice containing type value,
 // it will try to parse a suitable ASN.1 value out and store it
 // in the given Value. TODO : ObjectIdenfier
@@ -277,7 +287,7 @@ func ParseField(v reflect.Value, bytes []byte, params fieldParameters) error {
 					if params.openType {
 						return fmt.Errorf("OpenType is not implemented")
 					}
-					if *structParams[current].tagNumber == talNow.tagNumber {
+					if memberMatches(structParams[current], talNow) {
 						if err = ParseField(val.Field(current), bytes[offset:next], structParams[current]); err != nil {
 							return err
 						}
@@ -307,7 +317,7 @@ func ParseField(v reflect.Value, bytes []byte, params fieldParameters) error {
 					if params.openType {
 						return fmt.Errorf("OpenType is not implemented")
 					}
-					if *structParams[current].tagNumber == talNow.tagNumber {
+					if memberMatches(structParams[current], talNow) {
 						if parse_err1 := ParseField(val.Field(current), bytes[offset:next], structParams[current]); parse_err1 != nil {
 							return parse_err1
 						}
